@@ -1460,11 +1460,15 @@ def gen_canon(rng: random.Random, tier: str):
                 if acc == "matrix" and svf:
                     continue
                 yield {"param": is_param, "svf": svf, "acc": acc}
+    for acc in ("condition", "grid"):
+        yield {"composite": True, "acc": acc}
 
 
 def impl_canon(c):
     """the same call on a real transform: Translation / HomogeneousTransform (matrix) / StationaryVelocityFieldTransform;
     which classes of receiver state change: P = the shared `_parameters` container, E = the `exp` child module"""
+    if c.get("composite"):
+        return _impl_canon_composite(c)
     cls = "SVF" if c["svf"] else ("Homogeneous" if c["acc"] == "matrix" else "Translation")
     acc = {"condition": "cond"}.get(c["acc"], c["acc"])
     variant = {"grid": "ac", "data": "tensor", "inverse": "00"}.get(acc, "")
@@ -1483,13 +1487,38 @@ def impl_canon(c):
     return sorted(out)
 
 
+def _impl_canon_composite(c):
+    """SequentialTransform with one buffer-held DisplacementFieldTransform child (updated: `u` buffered):
+    A = the child's attributes (_args/_kwargs) change, B = the child's buffer containers change"""
+    grid = _tgrid(2)
+    child = make_leaf("Disp", "buffer", grid, 2)[0]
+    t = S.SequentialTransform(child)
+    t.update()
+    if c["acc"] == "condition":
+        sc = Scenario([t, (torch.rand(1, 3),)], [(0, 1, "tcopy", lambda s_, a: s_.condition(*a))])
+    else:
+        g2 = Grid(size=(17, 17), spacing=(0.5, 0.25), center=(1.0, -2.0), align_corners=True)
+        sc = Scenario([t, g2], [(0, 1, "tcopy", lambda s_, a: s_.grid(a))])
+    rec, _, g = sc.run()
+    out = set()
+    for p in [_names(g, q) for q in _receiver_changes(rec, 0, 0)]:
+        if not p.startswith("_modules._transforms._modules.100."):
+            out.add(p)
+        elif "_buffers" in p or "_non_persistent" in p:
+            out.add("B")
+        else:
+            out.add("A")
+    return sorted(out)
+
+
 def cmp_canon(c, r, out):
     if isinstance(r, str):
         return f"impl {r}"
     want = set()
     if out.startswith("changed"):
         nodes = [int(x) for x in out.split()[1].split(",")]
-        want = {{2: "P", 15: "E"}.get(n, f"node{n}") for n in nodes}
+        names = {18: "A", 20: "B", 22: "B"} if c.get("composite") else {2: "P", 15: "E"}
+        want = {names.get(n, f"node{n}") for n in nodes}
     elif out != "pure":
         return f"model {out}"
     if want != set(r):
@@ -1498,9 +1527,12 @@ def cmp_canon(c, r, out):
 
 
 STREAMS = [
-    Stream("canon", gen_canon, impl_canon, lambda c: f"heap.canon {int(c['param'])} {int(c['svf'])} {c['acc']}", cmp_canon, exhaustive=True,
+    Stream("canon", gen_canon, impl_canon,
+           lambda c: f"heap.canonc {c['acc']}" if c.get("composite") else f"heap.canon {int(c['param'])} {int(c['svf'])} {c['acc']}",
+           cmp_canon, exhaustive=True,
            doc="the finite table of C15_transform_accessors_partial / _refuted (canonical object graphs inside Lean) against real "
-               "transforms: which of {_parameters, exp child} change"),
+               "transforms: which of {_parameters, exp child} change; and the canonical composite (F-15f/g) against a real "
+               "SequentialTransform: which of {child attributes, child buffers} change"),
     Stream("calls", gen_calls2, impl_calls, line_calls, cmp_calls, exhaustive=True,
            doc="every entry of the argument table (all public names of core.functional and losses.functional, one entry per "
                "argument-form path, D in {2,3}; thorough: four value seeds): monitor verdict on the recorded op trace == direct observation "
@@ -1552,11 +1584,25 @@ ASSUMPTIONS = _Assumptions(ASSUMPTIONS + [
 TRUSTED = TRUSTED + ["torch.nn.Module.__setattr__/__delattr__/register_buffer semantics as transcribed in Model/Heap.lean (torch 2.14)"]
 
 
+def _canon_to_transform_case(c: dict) -> dict:
+    """a case of the `canon` stream as a case the `transform_accessors` oracle understands"""
+    if c.get("composite"):
+        return {"cls": "Seq(T,Disp)", "kind": "-", "acc": "cond" if c["acc"] == "condition" else "grid",
+                "variant": "" if c["acc"] == "condition" else "size", "D": 2, "updated": True}
+    cls = "SVF" if c["svf"] else ("Homogeneous" if c["acc"] == "matrix" else "Translation")
+    acc = {"condition": "cond"}.get(c["acc"], c["acc"])
+    return {"cls": cls, "kind": "param" if c["param"] else "buffer", "acc": acc,
+            "variant": {"grid": "ac", "data": "tensor", "inverse": "00"}.get(acc, ""), "D": 2, "updated": True}
+
+
 def search_cases(disagreements: List[dict]):
-    """disagreeing stream cases are fed to the oracle of the same family"""
+    """disagreeing stream cases are fed to the oracle of the same family (and only to an oracle that understands them)"""
     extra: Dict[str, List[dict]] = {}
     fam = {"calls": "call_leaves_arguments", "methods": "getter_leaves_parameters", "grid_programs": "grid_accessors",
            "image_programs": "image_accessors", "transform_accessors": "transform_accessors"}
     for d in disagreements[:200]:
-        extra.setdefault(fam.get(d["stream"], "call_leaves_arguments"), []).append(d["case"])
+        if d["stream"] == "canon":
+            extra.setdefault("transform_accessors", []).append(_canon_to_transform_case(d["case"]))
+        elif d["stream"] in fam:
+            extra.setdefault(fam[d["stream"]], []).append(d["case"])
     return extra
